@@ -76,14 +76,14 @@ def install_gibbs(rec):
     # ---- HybridGibbs -------------------------------------------------------------------------------------
     def mk_init(orig):
         def wrapper(self, *a, **k):
-            self._cv_constructing = True
+            rec.side(self)["constructing"] = True
             try:
                 orig(self, *a, **k)
             finally:
-                self._cv_constructing = False
+                rec.side(self)["constructing"] = False
             targets[id(self.target)] = (self.target, self)
             for b, s in self.samplers.items():
-                s._cv_gibbs = (self, b)
+                rec.side(s)["gibbs"] = (self, b)
             rec.emit(self, {"e": "init", "order": list(self.par_names),
                             "kinds": {b: kind_of(self.samplers[b]) for b in self.par_names},
                             "classes": {b: type(self.samplers[b]).__name__ for b in self.par_names},
@@ -134,10 +134,10 @@ def install_gibbs(rec):
             ent = targets.get(id(self))
             if ent is not None and ent[0] is self and not args:
                 g = ent[1]
-                if not getattr(g, "_cv_constructing", False):
+                if not rec.side(g).get("constructing", False):
                     names = list(g.par_names)
                     if set(kwargs) <= set(names) and len(kwargs) == len(names) - 1:
-                        g._cv_curblock = [n for n in names if n not in kwargs][0]
+                        rec.side(g)["curblock"] = [n for n in names if n not in kwargs][0]
                         rec.emit(g, {"e": "set_target", "others": {n: vid(v) for n, v in kwargs.items()}})
             return out
         return wrapper
@@ -146,11 +146,12 @@ def install_gibbs(rec):
     # block sampler transitions (stateful samplers inside HybridGibbs)
     def mk_sstep(orig):
         def wrapper(self, *a, **k):
-            tag = getattr(self, "_cv_gibbs", None)
-            if tag is None or getattr(self, "_cv_in_gstep", 0):
+            st = rec.side(self)
+            tag = st.get("gibbs")
+            if tag is None or st.get("in_gstep", 0):
                 return orig(self, *a, **k)
             g, b = tag
-            self._cv_in_gstep = 1
+            st["in_gstep"] = 1
             try:
                 try:
                     ok = cache_ok(self)
@@ -161,7 +162,7 @@ def install_gibbs(rec):
                 rec.emit(g, {"e": "block_step", "block": b, "start": start, "pid": vid(self.current_point), "cache_ok": bool(ok)})
                 return out
             finally:
-                self._cv_in_gstep = 0
+                st["in_gstep"] = 0
         return wrapper
     for cls in [Sampler] + all_subclasses(Sampler):
         if "step" in cls.__dict__ and not getattr(cls.__dict__["step"], "__isabstractmethod__", False):
@@ -219,7 +220,7 @@ def install_gibbs(rec):
                 out = orig(self, x)
             finally:
                 rec._gibbs_current_legacy = g
-            rec.emit(g, {"e": "block_step", "block": getattr(g, "_cv_curblock", "?"), "start": start, "pid": vid(out), "cache_ok": True})
+            rec.emit(g, {"e": "block_step", "block": rec.side(g).get("curblock", "?"), "start": start, "pid": vid(out), "cache_ok": True})
             return out
         return wrapper
     rec.patch(LegacySampler, "step", mk_lsstep)
@@ -235,7 +236,7 @@ def install_gibbs(rec):
                     g = rec._gibbs_current_legacy
                     out = orig(self, x)
                     if g is not None:
-                        rec.emit(g, {"e": "block_step", "block": getattr(g, "_cv_curblock", "?"), "start": vid(x),
+                        rec.emit(g, {"e": "block_step", "block": rec.side(g).get("curblock", "?"), "start": vid(x),
                                      "pid": vid(out), "cache_ok": True})
                     return out
                 return wrapper
